@@ -5,7 +5,11 @@ Proof: lean/NaijaVerif/Props/C11.lean over Model/Bump.lean (all histories).  Tie
 address of the reservation is an environment parameter of the model: the implementation's answer to
 `new` reports `base % 65536` and that residue is handed to the model as third word of the request
 (addresses themselves are never compared).  Oracle (no model): shadow ranges + byte patterns in the
-harness, reported as ORACLE-FAIL lines."""
+harness, reported as ORACLE-FAIL lines.  `ArenaString` (src/arena/string.rs) is part of the family:
+its buffer is a numbered block, every operation is compared with the model (place, length, capacity,
+digest of the content) and with a `std::string::String` doing the same (oracle).  A harness process
+killed by a signal (a raw write outside the committed range, one of std's UB checks such as
+`Vec::set_len`) names the request it died in (`DIED-AT`); that history is reported as a violation."""
 import glob
 import os
 import re
@@ -13,6 +17,10 @@ import re
 from common import DRIVER, VERIF, Check, MachineryError, _history, sh
 
 STARTS = ("new",)
+BLOCK_OPS = ("alloc", "zalloc", "vec", "sstr", "sfrom")          # requests that take a block number
+BLK_REFS = ("grow", "zgrow", "shrink", "fill", "sum", "vpush", "spush", "schar", "srepeat", "sres", "sresx", "sshrink",
+            "sclear", "srep", "sonce")                                # requests whose first operand is one
+STR_OPS = ("sstr", "sfrom", "spush", "schar", "srepeat", "sres", "sresx", "sshrink", "sclear", "srep", "sonce")
 CORPUS = os.path.join(VERIF, "corpus", "C11")
 
 
@@ -45,9 +53,13 @@ def corr(ck, reqs, label):
     """Same bookkeeping as Check.corr, with the two-pass hand-over of the base residue."""
     rc, impl_lines, err_lines = run_impl(ck, reqs)
     if rc != 0 or len(impl_lines) != len(reqs):
+        at = died_at(err_lines)
+        i = at[0] if at and at[0] < len(reqs) else min(len(impl_lines), len(reqs) - 1)
+        hist = _history(reqs, i, STARTS)
         ck.broken.append({"kind": "impl-run-died", "family": "bump", "rc": rc, "answered": len(impl_lines),
-                          "of": len(reqs), "in_flight": _history(reqs, min(len(impl_lines), len(reqs) - 1), STARTS)[-45:],
-                          "stderr": err_lines[-5:]})
+                          "of": len(reqs), "in_flight": hist[-45:], "stderr": err_lines[-5:]})
+        if at:
+            ck.deaths = getattr(ck, "deaths", []) + [{"history": hist, "what": at[1]}]
     model_lines = []
     if os.path.exists(DRIVER):
         mrc, model_lines, merr = run_model(model_requests(reqs, impl_lines))
@@ -79,6 +91,15 @@ def corr(ck, reqs, label):
     return res
 
 
+def died_at(err_lines):
+    """(0-based line, what) of the request the harness process died in, if it said so."""
+    for l in err_lines:
+        m = re.match(r"DIED-AT (\d+) (.*)", l)
+        if m:
+            return int(m.group(1)) - 1, "the implementation was killed while executing the request: " + m.group(2).strip()
+    return None
+
+
 def corpus_requests():
     reqs = []
     for path in sorted(glob.glob(os.path.join(CORPUS, "*.txt"))):
@@ -91,13 +112,19 @@ def corpus_requests():
 
 # --------------------------------------------------------------------------------------------- run
 def run(ck: Check):
-    ck.rule = ("operation histories (<= 40 ops + closing reads) over arenas of 1-4 chunks at steered base residues; "
-               "non-trivial = a history containing a failed request, a grow that had to move, an allocation after a "
-               "reset/release that gave space back, or a re-commit after a decommit; distinct by request text")
+    ck.rule = ("operation histories (<= 40 ops + closing reads) over arenas of 1-4 chunks at steered base residues, every "
+               "third one mostly ArenaString operations interleaved with allocations; "
+               "non-trivial = a history containing a failed request, a grow that had to move (a block, a Vec or a string "
+               "buffer), an allocation after a reset/release that gave space back, a re-commit after a decommit, or a "
+               "string operation whose result exceeded the spare capacity; distinct by request text")
     ck.assumptions += [
         "mmap/mprotect succeed; fresh and MADV_DONTNEED-ed pages read as zero (observed through the tie)",
         "std's RawVec growth policy for the vec/vpush composite ops is replicated in the driver (the observed "
-        "capacities are part of the compared answer)",
+        "capacities are part of the compared answer); for byte vectors / ArenaString it is Bump.reserveCap / "
+        "reserveExactCap, compared by theorem gen_reserve_policy with a table probed on the compiled crate "
+        "(Gen.Arena.reserveProbe) and by the oracle with every capacity observed in the stream",
+        "ArenaString requests the allocator must refuse are executed in a forked child only (observed: it dies in "
+        "handle_alloc_error); the operand strings are printable ASCII plus four fixed multi-byte characters",
         "the tie runs the debug build only (the model includes the debug fills)",
     ]
     ck.build_harness()
@@ -140,8 +167,9 @@ def classify(ck, reqs, res):
             ck.count("base_residue_page_%d" % (int(m.group(2)) // 4096))
             if int(m.group(2)) != int(hist[0].split()[2]) * 4096:
                 ck.count("base_residue_not_steered")
-        err = moved = inplace = reuse = recommit = False
+        err = moved = inplace = reuse = recommit = strgrow = False
         gave_back = lowered = False
+        nblk, slen, scap = 0, {}, {}
         last_commit = 0
         for r, a in zip(hist, ans):
             w = r.split()
@@ -159,6 +187,31 @@ def classify(ck, reqs, res):
                     ck.count("ok_allocs_zero_size")
                 if gave_back:
                     reuse = True
+            if op in STR_OPS:
+                ck.count("string_ops")
+                kind = a.split(" ", 1)[0]
+                if kind in ("abort", "refused"):
+                    ck.count("string_ops_" + kind)
+                ms = re.search(r"len=(\d+) cap=(\d+) moved=(\d)", a)
+                if ms:
+                    ln, cp, mv = int(ms.group(1)), int(ms.group(2)), ms.group(3) == "1"
+                    grew = op not in ("sstr", "sfrom") and cp > scap.get(w[1], 0) > 0
+                    if mv:
+                        ck.count("string_buffer_moved")
+                    elif grew:
+                        ck.count("string_buffer_grown_in_place")
+                    if grew and slen.get(w[1], 0) < scap.get(w[1], 0):
+                        ck.count("string_len_lt_cap_lt_newlen")
+                        strgrow = True
+                    elif grew:
+                        ck.count("string_len_eq_cap_lt_newlen")
+                        strgrow = True
+                    if op in ("srep", "sonce") and kind == "ok":
+                        ck.count("string_replace_" + ("growing" if ln > slen.get(w[1], 0) else "shrinking" if ln < slen.get(w[1], 0) else "same_length"))
+                    key = str(nblk) if op in ("sstr", "sfrom") else w[1]
+                    slen[key], scap[key] = ln, cp
+            if op in BLOCK_OPS and a != "bad-op":
+                nblk += 1
             if "moved=1" in a:
                 moved = True
             if op == "grow" and "moved=0" in a:
@@ -176,10 +229,11 @@ def classify(ck, reqs, res):
                     gave_back = True
                 last_commit = c
         for flag, name in ((err, "with_failure"), (moved, "with_moving_grow"), (inplace, "with_in_place_grow"),
-                           (reuse, "with_reuse_after_reset"), (recommit, "with_recommit_after_decommit")):
+                           (reuse, "with_reuse_after_reset"), (recommit, "with_recommit_after_decommit"),
+                           (strgrow, "with_string_growth")):
             if flag:
                 ck.count("histories_" + name)
-        if err or moved or reuse or recommit:
+        if err or moved or reuse or recommit or strgrow:
             ck.nontrivial_case("\n".join(hist))
             if len(ck.samples) < 3 and len(hist) < 16 and moved and reuse:
                 ck.samples.append({"requests": list(hist), "impl_answers": list(ans)})
@@ -233,6 +287,20 @@ def exhaustive(ck):
             total += 1
         res = corr(ck, reqs, "bump-exhaustive-" + label)
         classify(ck, reqs, res)
+    # strings: every history of exactly 5 requests over 9 letters behind `sstr 16 10` (a string with spare
+    # room), on a one-chunk arena: what is allocated behind the string, how much is pushed / reserved /
+    # replaced (fits, fills exactly, one too many, doubling ends exactly at the offset)
+    letters = {"a8": "alloc 8 1", "a16": "alloc 16 1", "p6": "spush 0 6", "p7": "spush 0 7", "r9": "srep 0 0 1 9",
+               "r0": "srep 0 2 6 0", "x": "sresx 0 22", "o": "sonce 0 1 2 9", "s": "sshrink 0"}
+    reqs = []
+    for word in itertools.product(sorted(letters), repeat=5):
+        reqs.append("new 65536 2")
+        reqs.append("sstr 16 10")
+        reqs.extend(letters[l] for l in word)
+        reqs.extend(["sum 0", "sum 1", "sum 2"])
+        total += 1
+    res = corr(ck, reqs, "bump-exhaustive-strings-len5-9ops")
+    classify(ck, reqs, res)
     ck.extra_cov["exhaustive_histories"] = total
 
 
@@ -250,12 +318,12 @@ def remove_line(hist, i):
     """Remove request i; block and mark numbers are positional, so references are renumbered and
     requests that referred to the removed block/mark are dropped."""
     op = hist[i].split()[0]
-    blk = sum(1 for r in hist[:i] if r.split()[0] in ("alloc", "zalloc", "vec"))
+    blk = sum(1 for r in hist[:i] if r.split()[0] in BLOCK_OPS)
     mrk = sum(1 for r in hist[:i] if r.split()[0] == "mark")
     out = hist[:i]
     for r in hist[i + 1:]:
         w = r.split()
-        if op in ("alloc", "zalloc", "vec") and w[0] in ("grow", "shrink", "fill", "sum", "vpush"):
+        if op in BLOCK_OPS and w[0] in BLK_REFS:
             b = int(w[1])
             if b == blk:
                 continue
@@ -288,6 +356,28 @@ def shrink(ck, hist, what):
     return best
 
 
+def dies(ck, hist):
+    rc, _out, err = run_impl(ck, hist, timeout=120)
+    return rc != 0 and died_at(err) is not None
+
+
+def shrink_death(ck, hist):
+    """Shortest history found by line removal on which the harness process is still killed."""
+    best = list(hist)
+    for _ in range(4):
+        changed = False
+        i = len(best) - 2          # the last request is the one it dies in
+        while i >= 1:
+            if i < len(best) - 1:
+                cand = remove_line(best, i)
+                if len(cand) < len(best) and dies(ck, cand):
+                    best, changed = cand, True
+            i -= 1
+        if not changed:
+            break
+    return best
+
+
 def signature(hist, what):
     """Narrow tag of the D-11 shape: a block misaligned for an alignment above the page size."""
     m = re.match(r"misaligned block \d+: addr mod (\d+) = (\d+)", what)
@@ -298,16 +388,30 @@ def signature(hist, what):
 
 def search(ck):
     found = list(ck.oracle_fails)
-    if not found:
+    if not found and not getattr(ck, "deaths", []):
         budget = 8000 if ck.tier == "quick" else 150000
-        for shift, extra in ((101, []), (202, ["--bias", "align"])):
+        for shift, extra in ((101, []), (202, ["--bias", "align"]), (303, ["--bias", "str"])):
             ck.seed += shift
             reqs = ck.gen("bump", ["--n", budget, "--maxlen", 60] + extra)
             ck.seed -= shift
             corr(ck, reqs, "bump-search")
-            if ck.oracle_fails:
+            if ck.oracle_fails or getattr(ck, "deaths", []):
                 found = list(ck.oracle_fails)
                 break
+    deaths = getattr(ck, "deaths", [])
+    if not found and deaths:
+        # the harness process was killed in the middle of a request (SIGSEGV: a write outside the committed
+        # range; SIGABRT: one of std's UB checks, e.g. Vec::set_len past the capacity)
+        d = min(deaths, key=lambda x: len(x["history"]))
+        hist = shrink_death(ck, d["history"]) if dies(ck, d["history"]) else d["history"]
+        rc, impl, err = run_impl(ck, hist, timeout=120)
+        at = died_at(err)
+        _mrc, model, _ = run_model(model_requests(hist, impl)) if os.path.exists(DRIVER) else (0, [], "")
+        ck.report_violation({"kind": "impl-killed", "family": "bump", "what": at[1] if at else d["what"],
+                             "requests": hist, "impl_answers": impl, "model_answers": model,
+                             "replay_cmd": "./check C11 --replay <this file>",
+                             "broken": ck.broken[:5], "disagreements": ck.disagreements[:3]})
+        return
     if found:
         f = min(found, key=lambda x: len(x["history"]))
         hist = shrink(ck, f["history"], f["what"])
@@ -344,5 +448,9 @@ def replay(ck, data):
         print(f"{r} | {il[i] if i < len(il) else '?'} | {ml[i] if i < len(ml) else '?'}")
     print("\n".join(err))
     failed = any(l.startswith("ORACLE-FAIL") for l in err)
-    print("oracle:", "FAIL" if failed else "ok", "| model vs implementation:", "same" if il == ml else "DIFFERENT")
+    at = died_at(err)
+    if rc != 0:
+        print(f"implementation: KILLED (exit status {rc})" + (f" in request {at[0] + 1}: {reqs[at[0]]}" if at and at[0] < len(reqs) else ""))
+    print("oracle:", "FAIL" if failed else "not reached (killed)" if rc != 0 else "ok",
+          "| model vs implementation:", "same" if il == ml else "DIFFERENT")
     return 1 if failed or il != ml or rc != 0 else 0
